@@ -124,8 +124,11 @@ def main():
     if pid == 0:
         code = 4
         try:
-            os.close(wfd)
+            # no traced system call before the tracer is attached: strace's injection counters are
+            # per call name from the moment of attaching, so a close() racing with the attach would
+            # shift every later close ordinal by one (seen under heavy load)
             os.read(rfd, 1)  # wait until the tracer is attached
+            os.close(wfd)
             os.close(rfd)
             mark("BEGIN")
             try:
